@@ -712,7 +712,7 @@ pub fn run(args: &Args, prop: &str) -> SubResult {
         // first world; thorough: everything except the thread-spawning front-end)
         let mut seen: HashSet<u64> = HashSet::new();
         let mut q: VecDeque<Vec<Op>> = VecDeque::new();
-        let do_bfs = if thorough { front != Front::TypedHot || idx < 6 } else { idx < 6 && front != Front::TypedHot };
+        let do_bfs = if thorough { idx < 36 && (front != Front::TypedHot || idx < 6) } else { idx < 6 && front != Front::TypedHot };
         if do_bfs {
             q.push_back(vec![]);
         }
@@ -743,7 +743,9 @@ pub fn run(args: &Args, prop: &str) -> SubResult {
         }
         // (2) every history without deduplication up to the depth bound
         // quick: full depth on the first world, one level less on the others
-        let d = if front == Front::TypedHot { 2 } else if !thorough && idx >= 6 { depth - 1 } else { depth };
+        // quick: full depth on the first world, one level less on the others; thorough: depth 4 on the
+        // first two worlds (12 cases x 3.5e7 histories), depth 3 on all 81
+        let d = if front == Front::TypedHot { 2 } else if !thorough && idx >= 6 { depth - 1 } else if thorough && idx >= 12 { depth - 1 } else { depth };
         let mut idxs = vec![0usize; d];
         'outer: loop {
             let ops: Vec<Op> = idxs.iter().map(|i| alpha[*i].clone()).collect();
